@@ -9,6 +9,8 @@ use crate::types::*;
 
 pub const NAME_POOL: &[&str] = &[
     "a", "ab", "a.b", "a.", "b.txt", ".h", "...", "..a", "ü", "日本", "€x", "A", "a b", "x", "c", "d1", "Ab", "b", "..\\outside.txt", "a\\b", "b_wo.c",
+    // a component close to the 255-byte limit of most filesystems (legal everywhere)
+    "LLLLLLLLLLLLLLLLLLLLLLLLLLLLLLLLLLLLLLLLLLLLLLLLLLLLLLLLLLLLLLLLLLLLLLLLLLLLLLLLLLLLLLLLLLLLLLLLLLLLLLLLLLLLLLLLLLLLLLLLLLLLLLLLLLLLLLLLLLLLLLLLLLLLLLLLLLLLLLLLLLLLLLLLLLLLLLLLLLLLLLLLLLLLLLLLLLLLLLLLLLLLLLLLLLLLLLLLLLLLLLLLLLLLLLLLLLLLLLLLLLLLLL.ext",
 ];
 /// names reserved for the areas outside an altroot / inner namespaces (never in the caller's universe)
 pub const ALT_POOL: &[&str] = &["ALTROOT_p", "ALTROOT_q", "ALTROOT_r"];
@@ -40,6 +42,8 @@ pub struct Gen {
     pub avoid_known: bool,
     /// percent chance that a pre-populated overlay gets a directory-over-file type conflict
     pub sandwich_pct: u32,
+    /// percent chance that a generated initial view holds one wide directory
+    pub wide_pct: u32,
 }
 
 #[derive(Clone, Copy, Debug, PartialEq)]
@@ -73,7 +77,7 @@ impl Gen {
             names[1] = "ab".into();
         }
         let depth = rng.range(2, 4);
-        Gen { rng, names, depth, next_payload: 1, domain: Domain::Contract, size_profile: 0, allow_seek: true, nfs: 1, avoid_known: false, sandwich_pct: 15 }
+        Gen { rng, names, depth, next_payload: 1, domain: Domain::Contract, size_profile: 0, allow_seek: true, nfs: 1, avoid_known: false, sandwich_pct: 15, wide_pct: 3 }
     }
 
     pub fn payload(&mut self) -> Payload {
@@ -382,6 +386,30 @@ impl Gen {
                 }
             }
         }
+        // scale: now and then one directory is WIDE (40-130 children with names that sort around
+        // each other), so that listings, merges and walks leave the handful-of-entries regime
+        if self.wide_pct > 0 && self.rng.pct(self.wide_pct) {
+            let dirs: Vec<String> = m.t.iter().filter(|(_, v)| matches!(v, Node::Dir)).map(|(k, _)| k.clone()).collect();
+            let d = dirs[self.rng.below(dirs.len())].clone();
+            let k = self.rng.range(40, 130);
+            for j in 0..k {
+                let name = match j % 4 {
+                    0 => format!("w{:03}", j),
+                    1 => format!("w{}", j),
+                    2 => format!("w{:03}.d", j),
+                    _ => format!("W{:02}x", j),
+                };
+                let p = format!("{}/{}", d, name);
+                if self.rng.pct(35) {
+                    m.t.insert(p.clone(), Node::Dir);
+                    if self.rng.pct(30) {
+                        m.t.insert(format!("{}/in", p), Node::File(Default::default()));
+                    }
+                } else {
+                    m.t.insert(p, Node::File(Default::default()));
+                }
+            }
+        }
         m.t.iter().filter(|(k, _)| !k.is_empty()).map(|(k, v)| (k.clone(), matches!(v, Node::File(_)))).collect()
     }
 
@@ -404,7 +432,10 @@ impl Gen {
                 for (p, is_file) in chosen {
                     let file = if is_file {
                         let mut pl = self.payload();
-                        if pl.len > 600 {
+                        // initial contents stay small, except in byte mode where every eighth
+                        // file keeps its drawn size (64 KiB boundaries, ~200 KiB): copy-up and
+                        // transfers of LARGE pre-existing files
+                        if pl.len > 600 && !(self.size_profile >= 2 && self.rng.pct(12)) {
                             pl.len = 600;
                         }
                         Some(pl)
